@@ -611,3 +611,169 @@ pub fn drive_pwops(seed: u64, rounds: usize, sink: &mut Sink) -> usize {
     }
     cov.0.len()
 }
+
+// ===================================================================== C09 log-polynomial integrals
+
+/// positive evaluation points / knot abscissae for log forms
+pub fn pos_point(rng: &mut Rng) -> f64 {
+    match rng.below(12) {
+        0 => 1.0,
+        1 => 2.0,
+        2 => 0.5,
+        3 => {
+            let mut v = 1.0f64;
+            for _ in 0..rng.below(64) {
+                v = v.next_up();
+            }
+            v
+        }
+        4 => {
+            let mut v = 1.0f64;
+            for _ in 0..rng.below(64) {
+                v = v.next_down();
+            }
+            v
+        }
+        5 => 1e-3 * (1.0 + rng.unit()),
+        6 => 1e3 * (1.0 + rng.unit()),
+        7 => rng.float_exp(-70, -40).abs(),
+        8 => rng.float_exp(-300, -100).abs(),
+        9 => rng.float_exp(10, 60).abs(),
+        _ => rng.float_exp(-4, 4).abs(),
+    }
+}
+
+macro_rules! logint_case {
+    ($P:ty, $c:expr, $knot:expr, $a:expr, $b:expr) => {{
+        let f = Log(<$P>::from_flat($c));
+        let integ = f.integral($knot);
+        let indef = f.indefinite();
+        (integ.flat(), indef.flat(), integ.evaluate($a), integ.evaluate($b), integ.evaluate($knot.x), indef.evaluate($a), indef.evaluate($b))
+    }};
+}
+
+pub fn drive_logint(seed: u64, rounds: usize, sink: &mut Sink) -> usize {
+    let mut rng = Rng::new(seed);
+    let mut nontrivial = 0;
+    for _ in 0..rounds {
+        for len in 1..=9usize {
+            let c: Vec<f64> = match rng.below(3) {
+                0 => (0..len).map(|_| rng.nice()).collect(),
+                1 => (0..len).map(|_| rng.float_exp(-4, 4)).collect(),
+                _ => coeffs(&mut rng, len),
+            };
+            let knot = Knot { x: pos_point(&mut rng), y: if rng.below(3) == 0 { 0.0 } else { rng.float_exp(-6, 6) } };
+            let (a, b) = (pos_point(&mut rng), pos_point(&mut rng));
+            let (integ, indef, fa, fb, fk, ia, ib) = match len {
+                1 => logint_case!(Poly0, &c, knot, a, b),
+                2 => logint_case!(Poly1, &c, knot, a, b),
+                3 => logint_case!(Poly2, &c, knot, a, b),
+                4 => logint_case!(Poly3, &c, knot, a, b),
+                5 => logint_case!(Poly4, &c, knot, a, b),
+                6 => logint_case!(Poly5, &c, knot, a, b),
+                7 => logint_case!(Poly6, &c, knot, a, b),
+                8 => logint_case!(Poly7, &c, knot, a, b),
+                _ => logint_case!(Poly8, &c, knot, a, b),
+            };
+            if knot.x != 1.0 && a != 1.0 && b != 1.0 {
+                nontrivial += 1;
+            }
+            sink.ev(json!({"ev":"logint","deg":len - 1,"p":jbs(&c),"kx":jb(knot.x),"ky":jb(knot.y),
+                "integ":jbs(&integ),"indef":jbs(&indef),"a":jb(a),"b":jb(b),"fa":jb(fa),"fb":jb(fb),"fk":jb(fk),"ia":jb(ia),"ib":jb(ib)}));
+        }
+    }
+    nontrivial
+}
+
+// ===================================================================== C10 quartic form evaluation
+
+fn quartic_params(rng: &mut Rng) -> (f64, [f64; 4], f64) {
+    match rng.below(7) {
+        0 => {
+            // unit lanes
+            let mut c = [0.0; 4];
+            let i = rng.below(6);
+            let mut k = 0.0;
+            let mut u = 0.0;
+            match i {
+                0 => k = 1.0,
+                5 => u = 1.0,
+                j => c[j as usize - 1] = 1.0,
+            }
+            (k, c, u)
+        }
+        1 => (0.0, [0.0; 4], if rng.bool() { 1.0 } else { -7.0 }),
+        2 => (1.0, [1.0; 4], 1.0),
+        3 => (rng.float_exp(-20, 20), [rng.float_exp(-20, 20), rng.float_exp(-20, 20), rng.float_exp(-20, 20), rng.float_exp(-20, 20)], rng.float_exp(-20, 20)),
+        4 => (0.0, [rng.nice(), rng.nice(), rng.nice(), rng.nice()], rng.nice()),
+        _ => (rng.float_exp(-3, 3), [rng.float_exp(-3, 3), rng.float_exp(-3, 3), rng.float_exp(-3, 3), rng.float_exp(-3, 3)], rng.float_exp(-3, 3)),
+    }
+}
+
+/// v with -ln v on one side or the other of the implementation's switch point `thr`, located by
+/// bisection on the implementation's own x = -ln v (the oracle does not know where the switch is)
+fn near_switch(thr: f64, rng: &mut Rng) -> f64 {
+    let (mut lo, mut hi) = ((-thr - 0.01).exp(), (-thr + 0.01).exp()); // -ln lo > thr > -ln hi
+    for _ in 0..80 {
+        let mid = lo / 2.0 + hi / 2.0;
+        if mid <= lo || mid >= hi {
+            break;
+        }
+        if -mid.ln() > thr {
+            lo = mid;
+        } else {
+            hi = mid;
+        }
+    }
+    let mut v = if rng.bool() { lo } else { hi };
+    for _ in 0..rng.below(4096) {
+        v = if rng.bool() { v.next_up() } else { v.next_down() };
+    }
+    v
+}
+
+pub fn drive_quartic(seed: u64, n: usize, extra: &str, sink: &mut Sink) -> usize {
+    let mut rng = Rng::new(seed);
+    let mut nontrivial = 0;
+    for it in 0..n {
+        let (k, c, u) = quartic_params(&mut rng);
+        let v = match it % 8 {
+            0 => {
+                let mut v = 1.0f64;
+                for _ in 0..rng.below(4097) {
+                    v = v.next_up();
+                }
+                v
+            }
+            1 => {
+                let mut v = 1.0f64;
+                for _ in 0..rng.below(4097) {
+                    v = v.next_down();
+                }
+                v
+            }
+            2 => near_switch(-1.71, &mut rng),
+            3 => near_switch(1.72, &mut rng),
+            4 | 5 => {
+                // dense sweep of x in [-40, 40]
+                let x = -40.0 + 80.0 * rng.unit();
+                (-x).exp()
+            }
+            6 => {
+                if extra == "noextreme" {
+                    rng.float_exp(-200, 200).abs()
+                } else {
+                    *rng.pick(&[f64::from_bits(1), f64::MIN_POSITIVE, 1e-300, 1e-30, 1e30, 1e300, 2.2250738585072014e-308, 1e-310, 4e-308])
+                }
+            }
+            _ => 1.0 + (rng.unit() - 0.5) * 2f64.powi(-(rng.below(50) as i32)),
+        };
+        let f = IntOfLogPoly4 { k, coeffs: c, u };
+        let y = f.evaluate(v);
+        if v != 1.0 {
+            nontrivial += 1;
+        }
+        sink.ev(json!({"ev":"quartic","k":jb(k),"c":jbs(&c),"u":jb(u),"v":jb(v),"y":jb(y)}));
+    }
+    nontrivial
+}
